@@ -21,7 +21,7 @@ WATCHDOG = 30
 
 def strategy(tier, flags):
     return st.fixed_dictionaries({"fa": gen_fa.fa_desc(
-        sym_pools=gen_fa.PLAIN_SYM_POOLS, classes=("enfa", "enfa", "enfa", "nfa", "dfa"), allow_extra=False)})
+        sym_pools=gen_fa.PLAIN_SYM_POOLS, classes=("enfa", "enfa", "enfa", "nfa", "dfa"), allow_extra=False, big_states=(6, 7, 8))})
 
 
 def run_case(case):
